@@ -11,4 +11,7 @@ MCUserMut == @USERMUT@
 MCEvMut == @EVMUT@
 MCEvInit == @EVINIT@
 MCPanickers == @PANICKERS@
+MCStoppers == @STOPPERS@
+MCUnregs == @UNREGS@
+MCWaitFor == @WAITFOR@
 =============================================================================
